@@ -199,9 +199,45 @@ func descCall(c *ssa.Call, depth int) string {
 		args = append(args, descValue(c.Call.Value, depth+1))
 	}
 	for _, a := range c.Call.Args {
+		if al, ok := a.(*ssa.Alloc); ok && depth < 2 {
+			args = append(args, descAllocAt(al, c, depth+1))
+			continue
+		}
 		args = append(args, descValue(a, depth+1))
 	}
 	return descCallee(cl) + "(" + strings.Join(args, ",") + ")"
+}
+
+// descAllocAt describes a local cell at a program point by the closest dominating call that
+// defined it as receiver of a Set* method (so that two checks on the same scratch variable,
+// loaded with different inputs, are different statements).
+func descAllocAt(a *ssa.Alloc, at ssa.Instruction, depth int) string {
+	base := "local:" + shortType(a.Type().(*types.Pointer).Elem())
+	var best *ssa.Call
+	for _, r := range *a.Referrers() {
+		call, ok := r.(*ssa.Call)
+		if !ok || call == at || len(call.Call.Args) == 0 || call.Call.Args[0] != ssa.Value(a) || call.Call.IsInvoke() {
+			continue
+		}
+		cl := calleeOf(&call.Call)
+		if cl.Recv == "" || !(strings.HasPrefix(cl.Name, "Set") || (cl.Pkg == "math/big" && !bigGetter[cl.Name])) {
+			continue
+		}
+		if !instrDominates(call, at) {
+			continue
+		}
+		if best == nil || instrDominates(best, call) {
+			best = call
+		}
+	}
+	if best == nil {
+		return base
+	}
+	var args []string
+	for _, x := range best.Call.Args[1:] {
+		args = append(args, descValue(x, depth+1))
+	}
+	return base + "<-" + calleeOf(&best.Call).Name + "(" + strings.Join(args, ",") + ")"
 }
 
 // descAtom renders the statement that holds on the given edge (0 = true edge) of an If with
@@ -321,6 +357,13 @@ func delegation(a acceptRet) string {
 			s += fmt.Sprintf("#%d", idx)
 		}
 		return "ok " + s
+	}
+	// a returned comparison: the statement that makes it true
+	switch a.val.(type) {
+	case *ssa.BinOp, *ssa.UnOp:
+		if b, ok := a.val.Type().Underlying().(*types.Basic); ok && b.Kind() == types.Bool {
+			return descAtom(atomOf(a.val), 0)
+		}
 	}
 	return ""
 }
